@@ -98,6 +98,22 @@ impl<const TOTAL_NUM_BITS: u32, const NUM_INDEX_BITS: u32>
     }
 }
 
+#[cfg(feature = "verif-hooks")]
+impl<const TOTAL_NUM_BITS: u32, const NUM_INDEX_BITS: u32>
+    PhaseAccumulator<TOTAL_NUM_BITS, NUM_INDEX_BITS>
+{
+    /// Raw state for the verification harness: sample rate bits, accumulator, last accumulator, increment, roll-over flag
+    pub fn verif_raw(&self) -> [u32; 5] {
+        [
+            self.sample_rate_hz.to_bits(),
+            self.accumulator,
+            self.last_accumulator,
+            self.increment,
+            self.rolled_over as u32,
+        ]
+    }
+}
+
 #[cfg(test)]
 mod tests {
     use super::*;
